@@ -4,6 +4,8 @@
 # By default each change is run against the check of its own property + C01 + C02 + the checks of its family;
 # --all runs every registered check.
 export EVAL_REPO=/tmp/evalrepo EVAL_VERIF=/tmp/evalverif
+# --direct: apply each change to /repo itself and run the checks of /verif itself (final confirmation; nothing else may use them meanwhile)
+if [ "${1:-}" = "--direct" ]; then unset EVAL_REPO EVAL_VERIF; shift; fi
 ALL=0; if [ "${1:-}" = "--all" ]; then ALL=1; shift; fi
 family() {
   case "$1" in
